@@ -61,6 +61,9 @@ func (c *c14Case) build() (tpl string, want map[string]string, wantClass []strin
 	case "interp":
 		stat = append(stat, `title="a{{ w }}b"`)
 		want["title"] = "aWb"
+	case "edge": // spaces that are not HTML white space at the ends of a static value are content
+		stat = append(stat, "title=\"&nbsp;st\u3000\" data-e=\"\u2003\"")
+		want["title"], want["data-e"] = "\u00a0st\u3000", "\u2003"
 	}
 	switch c.TitleB {
 	case "none":
@@ -671,7 +674,7 @@ func (c *c14Case) Run(ctx *core.Ctx) {
 		g, ok := got[k]
 		if !ok {
 			ctx.Violation("attribute-missing", c14Where(c, k), c14Trig(c, k), fmt.Sprintf("%s\ntpl %q: %s missing (want %q) in %q", cfg, tpl, k, w, out))
-		} else if strings.TrimSpace(g) != w {
+		} else if strings.Trim(g, " \t\n\r\f") != w { // (HTML white space at the ends is not compared; any other space is content)
 			ctx.Violation("attribute-value", c14Where(c, k), c14Trig(c, k), fmt.Sprintf("%s\ntpl %q: %s=%q want %q", cfg, tpl, k, g, w))
 		}
 	}
@@ -801,7 +804,7 @@ func init() {
 				}
 			}
 			tbs := append([]string{"none", "vbind"}, c14TitleVals...)
-			for _, ts := range []string{"none", "static", "interp"} {
+			for _, ts := range []string{"none", "static", "interp", "edge"} {
 				for _, tb := range tbs {
 					for _, cs := range []bool{false, true} {
 						for _, cb := range []string{"none", "str", "obj1", "obj2", "obj3", "obj4", "obj5", "num", "objcall", "objquote"} {
